@@ -35,6 +35,12 @@ STRENGTHENED = {
  "C22-c": "after streams with a bad length prefix were run through the real readLoop with reads ending right after the prefix",
  "C26-c": "after retry storms (9-13 failed attempts on one, possibly trusted, peer followed by the clean-up tick) were added",
  "C33-c": "after the pattern 'genuine block too early, then a forged copy at the right moment' joined the sync profile",
+ "C02-d": "C01 as first built (shared correspondence); C02 reliably after the sweep over the 3x3 positions of a shared input",
+ "C03-d": "after the 257-output hours-overflow kind and the single-defect transaction at pool admission were added",
+ "C04-d": "C33 as first built; C04 after the lagging-follower pattern (second block early, forged copy before the genuine one)",
+ "C05-d": "after mkblock ran the publisher's own createBlock (new verif hook visor.VerifCreateBlock) instead of CreateBlockFromTxns",
+ "C06-d": "after oversize + hard-defect combinations were added (soft/hard classification at pool admission)",
+ "C07-d": "after start-ups on an address index that lags a few blocks behind the head were added",
  "C22-b": "after the real readLoop was run on scripted connections (new verif hook gnet.VerifReadLoop)",
  "C07-b": "after the balance view (GetBalanceOfAddresses) joined the whole-state digest and the model",
 }
